@@ -227,6 +227,20 @@ Definition b_wrap_error (t o : berr) (msg : bytes) : berr :=
 (* fmt.Errorf("%w: %v", kind, err.Error()) *)
 Definition b_fmt (k : nat) (e : berr) : berr := BWrap (ktext k ++ [58; 32] ++ b_text e) (BK k).
 
+(* commonerrors.New(sentinel k, msg) *)
+Definition b_new (k : nat) (msg : bytes) : berr := b_errorf (BK k) msg.
+
+(* The kinds each converter is EXPECTED to leave alone whatever the message says (hand-written, not generated: this
+   is the intent the rule tables are checked against).  platform.ConvertError: the context kinds and "not implemented" /
+   "unsupported" (so that an error already classified as not implemented is not re-read as "unsupported" because its
+   message says "not supported").  ConvertFileSystemError: the context kinds.  ConvertIOError: every kind.
+   ConvertProcessError: none (its first rule is a text rule). *)
+Definition expected_pass (conv : Z) : list nat :=
+  if conv =? 3 then [ErrTimeout; ErrCancelled; ErrNotImplemented; ErrUnsupported]
+  else if conv =? 0 then [ErrTimeout; ErrCancelled]
+  else if conv =? 1 then seq 0 nkinds
+  else [].
+
 (* ---------- interpretation of the generated tables ---------- *)
 
 Definition eval_atom (e : berr) (a : catom) : bool :=
